@@ -101,6 +101,8 @@ type Case struct {
 	// TLS: the server is built with TLSCredsOption as well (its handler is
 	// still driven in process)
 	TLS bool `json:"tls,omitempty"`
+	// Small: use the mux with the 2 KiB receive limit (mounted and bare)
+	Small bool `json:"small_receive_limit,omitempty"`
 }
 
 func chunkJSON(id string) []byte { return []byte(fmt.Sprintf(`{"id":%q,"seq":3,"text":"t"}`, id)) }
@@ -269,6 +271,9 @@ type env struct {
 	std   *svc.Std
 	bare  *larking.Mux
 	calls int64
+	// small: the same service on a mux with a 2 KiB receive limit (requests
+	// whose body as a whole exceeds it while every message fits)
+	small *larking.Mux
 }
 
 func newEnv() (*env, error) {
@@ -278,7 +283,10 @@ func newEnv() (*env, error) {
 		return nil, err
 	}
 	e.std = std
-	e.bare, err = std.NewMux(impl{&e.calls})
+	if e.bare, err = std.NewMux(impl{&e.calls}); err != nil {
+		return nil, err
+	}
+	e.small, err = std.NewMux(impl{&e.calls}, larking.MaxReceiveMessageSizeOption(2048))
 	return e, err
 }
 
@@ -300,7 +308,11 @@ func exec(r *mon.Run, e *env, c *Case) {
 	}
 	var hs *http.Server
 	var err error
-	if pi := mon.Catch(func() { hs, err = larking.NewServer(e.bare, opts...) }); pi != nil {
+	bareMux := e.bare
+	if c.Small {
+		bareMux = e.small
+	}
+	if pi := mon.Catch(func() { hs, err = larking.NewServer(bareMux, opts...) }); pi != nil {
 		r.Violate(pi.Key(), "NewServer panicked for patterns "+fmt.Sprint(c.Patterns), c)
 		return
 	}
@@ -327,6 +339,20 @@ func exec(r *mon.Run, e *env, c *Case) {
 		// ServeMux pattern grammar: [METHOD ][HOST]/[PATH]
 		pm, ph, p := splitPattern(pat)
 		own := c.URLPath == p || (strings.HasSuffix(p, "/") && strings.HasPrefix(c.URLPath, p))
+		if strings.Contains(p, "{") {
+			// single-segment wildcards of the Go 1.22 pattern grammar; a
+			// literal pattern or a mount's subtree that matches too is more
+			// specific
+			own = wildMatch(p, c.URLPath)
+			if own && mok && mpre != "" {
+				own = false // (not generated: such a pair conflicts in net/http)
+			}
+			for _, pat2 := range c.Extra {
+				if _, _, p2 := splitPattern(pat2); own && p2 != p && !strings.Contains(p2, "{") && (c.URLPath == p2 || (strings.HasSuffix(p2, "/") && strings.HasPrefix(c.URLPath, p2))) {
+					own = false
+				}
+			}
+		}
 		if own && (pm != "" || ph != "") {
 			if (pm != "" && pm != c.Req.Verb) || (ph != "" && ph != "verif.test") {
 				// a qualified pattern that does not cover this request: what
@@ -372,7 +398,7 @@ func exec(r *mon.Run, e *env, c *Case) {
 		r.Distinct(fmt.Sprintf("outside/%s/%d", c.Req.Kind, got.Code))
 		return
 	}
-	want := wire.Serve(e.bare, c.Req.build(strings.TrimPrefix(c.URLPath, pre)))
+	want := wire.Serve(bareMux, c.Req.build(strings.TrimPrefix(c.URLPath, pre)))
 	r.Count("request_pairs", 1)
 	if d := viewOf(got).diff(viewOf(want)); d != "" {
 		r.Violate("mounted-differs-from-bare:"+c.Req.Kind+":"+strings.Fields(d)[0], fmt.Sprintf("%s %s under %q vs bare %s: %s", c.Req.Verb, c.URLPath, pre, strings.TrimPrefix(c.URLPath, pre), d), c)
@@ -393,6 +419,27 @@ func decodedPath(c *Case) string {
 		}
 	}
 	return c.URLPath
+}
+
+// wildMatch matches a path against a pattern whose segments may be {name}
+// wildcards (each covers exactly one non-empty segment).
+func wildMatch(pat, path string) bool {
+	ps, qs := strings.Split(pat, "/"), strings.Split(path, "/")
+	if len(ps) != len(qs) {
+		return false
+	}
+	for i := range ps {
+		if strings.HasPrefix(ps[i], "{") && strings.HasSuffix(ps[i], "}") {
+			if qs[i] == "" {
+				return false
+			}
+			continue
+		}
+		if ps[i] != qs[i] {
+			return false
+		}
+	}
+	return true
 }
 
 // splitPattern splits a ServeMux pattern "[METHOD ][HOST]/[PATH]".
@@ -497,6 +544,18 @@ func Run(r *mon.Run) {
 		if ci%4 == 0 {
 			more = append(more, setCfg{set: cfg.set, extra: cfg.extra, tls: true})
 		}
+		if ci%3 == 1 {
+			// a single-segment wildcard next to the mounts, and a handler on
+			// exactly the mount point (which is not below the mount)
+			ex := []string{"/{section}"}
+			for k := range has {
+				if k != "" && !strings.Contains(k[1:], "/") && ci%2 == 1 {
+					ex = []string{k, "/{section}"}
+					break
+				}
+			}
+			more = append(more, setCfg{set: cfg.set, extra: ex})
+		}
 		if ci%5 == 0 {
 			// host- and method-qualified patterns of the ServeMux grammar
 			more = append(more, setCfg{set: cfg.set, extra: []string{"verif.test/hosted/", "GET /status", "POST verif.test/hooks/in"}})
@@ -578,6 +637,21 @@ func Run(r *mon.Run) {
 		}
 		for _, pat := range extra {
 			pm, _, p := splitPattern(pat)
+			if strings.Contains(p, "{") {
+				cands := []string{"zzz"}
+				for pre := range prefixes {
+					if pre != "" && !strings.Contains(pre[1:], "/") {
+						cands = append(cands, pre[1:])
+					}
+				}
+				for _, cnd := range cands {
+					u := strings.NewReplacer("{section}", cnd, "{item}", "it").Replace(p)
+					for _, verb := range []string{"GET", "POST"} {
+						exec(r, e, &Case{Patterns: set, Extra: extra, URLPath: u, Req: ReqSpec{Kind: "http", Verb: verb, Path: u}})
+					}
+				}
+				continue
+			}
 			u := p
 			if strings.HasSuffix(p, "/") {
 				u += "some/dir/file.txt"
@@ -588,6 +662,33 @@ func Run(r *mon.Run) {
 			}
 			exec(r, e, &Case{Patterns: set, Extra: extra, URLPath: u, Req: ReqSpec{Kind: "http", Verb: verb, Path: u}})
 		}
+	}
+	// requests whose body as a whole exceeds the mux's receive limit while
+	// every message in it fits: the limit is per message, mounted or not
+	{
+		var many []byte
+		for i := 0; i < 12; i++ {
+			many = append(many, []byte(fmt.Sprintf(`{"id":"m%d","data":"%s"}`, i, strings.Repeat("QUJD", 150)))...)
+		}
+		jh := map[string][]string{"Content-Type": {"application/json"}}
+		big := []ReqSpec{
+			{Kind: "http", Verb: "POST", Path: "/v1/cs", Header: jh, Body: many},
+			{Kind: "http", Verb: "POST", Path: "/v1/upload/f.bin", Header: map[string][]string{"Content-Type": {"application/octet-stream"}}, Body: bytes.Repeat([]byte{0xab}, 9000)},
+			{Kind: "grpc", Verb: "POST", Path: e.std.Full("Bidi"), Body: bytes.Repeat(wire.Frame(chunkProto(strings.Repeat("x", 900)), false), 6)},
+			{Kind: "web", Verb: "POST", Path: e.std.Full("Echo"), Body: wire.Frame(chunkProto(strings.Repeat("y", 1500)), false)},
+		}
+		for _, set := range [][]string{{"/"}, {"/api"}, {"/", "/api"}, {"/a/b/c/"}} {
+			for _, tlsOn := range []bool{false, true} {
+				for _, q := range big {
+					for _, p := range set {
+						c := &Case{Patterns: set, URLPath: strings.TrimSuffix(p, "/") + q.Path, Req: q, Small: true}
+						tlsNow = tlsOn
+						exec(r, e, c)
+					}
+				}
+			}
+		}
+		tlsNow = false
 	}
 	socketLane(r, e)
 	r.Sample(Case{Patterns: []string{"/api", "/a/b"}, URLPath: "/api/v1/echo/xyz", Req: ReqSpec{Kind: "http", Verb: "GET", Path: "/v1/echo/xyz"}})
